@@ -167,18 +167,22 @@ func runRedirect(c *mc.Ctx, r *mc.Result) {
 	f.Handle("GET", "/x/*{w}", func(fox.Context) {})
 	g, _ := fox.New(fox.WithRedirectTrailingSlash(true))
 	g.Handle("GET", "/*{w}", func(fox.Context) {})
+	h, _ := fox.New(fox.WithRedirectTrailingSlash(true))
+	for _, p := range []string{"/a/", "/a/x/", "/x", "/x/a", "/{p}/a/", "/x/{p}/", "/a/{p}"} {
+		h.Handle("GET", p, func(fox.Context) {})
+	}
 	maxLen := 8
 	if c.Quick() {
 		maxLen = 7
 	}
-	r.Bounds["redirect"] = fmt.Sprintf("every path '/'+s, s of <=%d letters over {/ . a x}, served by two single-catch-all routers with redirect enabled", maxLen-1)
+	r.Bounds["redirect"] = fmt.Sprintf("every path '/'+s, s of <=%d letters over {/ . a x}, served by two single-catch-all routers and one static/parameter router with redirect enabled", maxLen-1)
 	w := fx.NewRW()
 	idx := 0
 	var rec func(cur string, n int)
 	rec = func(cur string, n int) {
 		idx++
 		if c.Mine(idx >> 6) {
-			for ri, rt := range []*fox.Router{f, g} {
+			for ri, rt := range []*fox.Router{f, g, h} {
 				w.Reset()
 				rt.ServeHTTP(w, fx.Req("GET", "", cur))
 				r.Evaluations++
